@@ -210,6 +210,7 @@ static struct {
     volatile int draining;
     volatile int es_expect[NRANK]; /* per stream: the unit that must get control next, or -1 */
     long switches[P_N];
+    long cancels_at_switch;
     long migrations_at_switch;
     int home_rank; /* rank of the only stream serving the chain pool (private mode) */
     volatile int any_away; /* some unit left the chain pool: units now run on several streams */
@@ -440,6 +441,17 @@ static void chain_body(void *arg)
                 B.migrations_at_switch++;
             }
         }
+        /* sometimes the caller has a cancellation request pending instead: a yield-type switch
+         * then terminates the caller (the suspend-type ones do not look at it) while the target
+         * still gets control */
+        int cancelling = 0;
+        if (!migrating && (prim == P_YIELD_TO || prim == P_RESUME_YIELD_TO || prim == P_THREAD_YIELD_TO || prim == P_YIELD) && sim_rand_n(SIM_RS_CHAOS, 10) == 0) {
+            ABT_thread self;
+            ABT_OK(ABT_self_get_thread(&self));
+            ABT_OK(ABT_thread_cancel(self));
+            cancelling = 1;
+            B.cancels_at_switch++;
+        }
         sw_arg a = { prim, (t >= 0 && prim != P_CREATE_TO) ? B.C[t].th : ABT_THREAD_NULL, t, ABT_SUCCESS };
         if (prim == P_REVIVE_TO) {
             B.C[t].budget = 1 + (int)sim_rand_n(SIM_RS_CHAOS, 3);
@@ -451,9 +463,9 @@ static void chain_body(void *arg)
             cult *tg = &B.C[t];
             int rank = -1;
             ABT_OK(ABT_self_get_xstream_rank(&rank));
-            int caller_after = (prim == P_SUSPEND_TO || prim == P_RESUME_SUSPEND_TO) ? (int)ABT_THREAD_STATE_BLOCKED
-                               : (prim == P_EXIT_TO || prim == P_RESUME_EXIT_TO)     ? (int)ABT_THREAD_STATE_TERMINATED
-                                                                                     : (int)ABT_THREAD_STATE_READY;
+            int caller_after = (prim == P_SUSPEND_TO || prim == P_RESUME_SUSPEND_TO)             ? (int)ABT_THREAD_STATE_BLOCKED
+                               : (prim == P_EXIT_TO || prim == P_RESUME_EXIT_TO || cancelling) ? (int)ABT_THREAD_STATE_TERMINATED
+                                                                                               : (int)ABT_THREAD_STATE_READY;
             tg->from = me->id;
             tg->from_started = me->started;
             tg->from_migrated = migrating;
@@ -465,17 +477,19 @@ static void chain_body(void *arg)
                 B.es_expect[rank] = t;
             me->hstate = caller_after == (int)ABT_THREAD_STATE_BLOCKED ? H_SUSPENDING : caller_after == (int)ABT_THREAD_STATE_TERMINATED ? H_REVIVABLE : H_INPOOL;
         } else
-            me->hstate = H_INPOOL;
+            me->hstate = cancelling ? H_REVIVABLE : H_INPOOL;
         B.switches[prim]++;
         WL_DBG("[%lu] c%d %s -> c%d (migrating=%d)\n", (unsigned long)sim_steps(), me->id, pn[prim], t, migrating);
         volatile uint64_t pat[24];
         uint64_t pbase = 0x5a5a0000ULL + (uint64_t)(me->id * 4096 + me->budget * 24);
         for (int i = 0; i < 24; i++)
             pat[i] = pbase + (uint64_t)i;
-        if (prim == P_EXIT_TO || prim == P_RESUME_EXIT_TO) {
+        if (prim == P_EXIT_TO || prim == P_RESUME_EXIT_TO || cancelling) {
             me->done = 1;
             sim_progress();
             do_switch(&a);
+            if (cancelling)
+                sim_fail("cancel:survived-scheduling-point", "ULT %d continued after %s although its cancellation was requested before", me->id, pn[prim]);
             sim_fail("switch:exit-returned", "%s returned %d to the caller", pn[prim], a.rc);
         }
         if (B.c02) {
@@ -623,7 +637,12 @@ static void run_c02_chain(void)
 {
     run_chain(1);
 }
+static void run_c06_chain(void)
+{
+    run_chain(0); /* pool accounting (num_blocked) across directed switches, migrations, cancels */
+}
 SIM_WORKLOAD("C11", "chain", run_c11_chain, 10)
+SIM_WORKLOAD("C06", "chain", run_c06_chain, 5)
 SIM_WORKLOAD("C02", "chain", run_c02_chain, 10)
 
 /* ================================================================ scenario C */
